@@ -37,15 +37,18 @@ BaseTok(b) ==
     [] b = "string" -> <<"std", "::", "string">>
     [] b = "vecint" -> <<"std", "::", "vector", "<", "int", ">">>
     [] b = "vecdouble" -> <<"std", "::", "vector", "<", "double", ">">>
+    [] b = "vecuint" -> <<"std", "::", "vector", "<", "unsigned", "int", ">">>
+    [] b = "vecllong" -> <<"std", "::", "vector", "<", "long", "long", ">">>
     [] b = "cls" -> <<"Cls">>
     [] b = "nscls" -> <<"ns", "::", "Inner">>
 \* what the parser records as the specifier list
 BaseSpec(b) ==
   CASE b \in {"string"} -> <<"std::string">>
-    [] b \in {"vecint", "vecdouble"} -> <<"std::vector">>
+    [] b \in {"vecint", "vecdouble", "vecuint", "vecllong"} -> <<"std::vector">>
     [] b = "nscls" -> <<"ns::Inner">>
     [] OTHER -> BaseTok(b)
-BaseTmpl(b) == CASE b = "vecint" -> <<"int">> [] b = "vecdouble" -> <<"double">> [] OTHER -> <<>>
+BaseTmpl(b) == CASE b = "vecint" -> <<"int">> [] b = "vecdouble" -> <<"double">>
+                 [] b = "vecuint" -> <<"unsigned int">> [] b = "vecllong" -> <<"long long">> [] OTHER -> <<>>
 
 \* canonical C++ spelling of the base type (docs/typemaps: cxx_type)
 BaseCxx(b) ==
@@ -62,7 +65,7 @@ BaseCxx(b) ==
 RECURSIVE JoinWith(_, _)
 JoinWith(ws, sep) == IF ws = <<>> THEN "" ELSE IF Len(ws) = 1 THEN ws[1] ELSE ws[1] \o sep \o JoinWith(Tail(ws), sep)
 BaseType(b) ==
-  CASE b = "string" -> "std::string" [] b \in {"vecint", "vecdouble"} -> "std::vector"
+  CASE b = "string" -> "std::string" [] b \in {"vecint", "vecdouble", "vecuint", "vecllong"} -> "std::vector"
     [] b = "cls" -> "Cls" [] b = "nscls" -> "ns::Inner"
     [] OTHER -> JoinWith(BaseCxx(b), "_")
 
